@@ -177,6 +177,55 @@ def run(ctx):
               witness={"compared": mismatch[0], "stored": mismatch[1]}
               if mismatch else None)
 
+    # R6: the namespace is case-insensitive: whatever handle_define asks of
+    # the mapping (membership, lookup, store) and whatever it tests about the
+    # name, it asks with the case-normalised name -- the name as written may
+    # only be the argument of the normaliser (or text of an error message)
+    rawname_uses = []
+
+    def visit(t, out, inside_norm=False):
+        if not isinstance(t, tuple) or not t:
+            return
+        if t[0] == "call":
+            f = A.fmt(t[1])
+            if f.endswith("._normalize_case") or f.endswith(".lower") \
+                    or f == "builtins.repr" or f.endswith("Error") \
+                    or f.endswith(".error") or f.endswith("isname"):
+                # (the name language is closed under case, C04.R1: asking
+                # isname() of either spelling gives the same answer)
+                return
+        if t[0] == "index" and t[2] == A.const(0) and t[1][0] == "call" \
+                and t[1][1][0] == "attr" and t[1][1][2] == "split" \
+                and t[1][1][1] == ("param", 1):
+            out.append(True)
+            return
+        for x in t:
+            visit(x, out)
+    for p in A.Interp(hd, P, extra_pure=("isname",)).paths():
+        for a in p.order:
+            hit = []
+            visit(a, hit)
+            if hit and a[0] in ("contains", "ord", "eq", "truthy"):
+                txt = "condition " + A.fmt_atom(a)
+                if txt not in rawname_uses:
+                    rawname_uses.append(txt)
+        for e in p.effects:
+            if e[0] == "item-store":
+                hit = []
+                visit(e[2], hit)
+                if hit:
+                    txt = "store under key " + A.fmt(e[2])
+                    if txt not in rawname_uses:
+                        rawname_uses.append(txt)
+    run.rule("C05.R6", "handle_define consults and updates the mapping, and "
+             "tests the name, only with the case-normalised name")
+    run.check(not rawname_uses, "C05.R6", hd.qualname, "name as written",
+              "every condition and store mentions the name only through the "
+              "normaliser", "the name as written (before case normalisation) "
+              "is used: %s -- two spellings of one name are not recognised "
+              "as the same definition" % "; ".join(rawname_uses[:3]),
+              loc=m.loc(hd, hd.node), witness={"uses": rawname_uses})
+
     # R3/R4: decision tables
     ref = "ref_cfgparser.py"
     for live, refname, rule, what in (
